@@ -162,41 +162,9 @@ fn check(c: &CacheCase, obs: &mut O) -> Verdict {
     v
 }
 
-// ---------- a forced run over a cache that disagrees with the bank ----------
-#[derive(Clone, Debug)]
-pub struct ForcedCase { pub y0: i32, pub years: i32, pub lookups: Vec<Date> }
-fn forced_strategy(_t: Tier) -> BoxedStrategy<ForcedCase> {
-    (2017i32..=2021, 2i32..=3, proptest::collection::vec((0i32..3, 0u16..366), 2..10)).prop_map(|(y0, years, picks)| {
-        let lookups = picks.into_iter().map(|(dy, doy)| { let y = y0 + dy % years; crate::gen::ymd(y, 1, 1) + time::Duration::days((doy % 365) as i64) }).collect();
-        ForcedCase { y0, years, lookups }
-    }).boxed()
-}
-/// --force-download: every year the run touches is downloaded, whatever the cache holds.  The cache here holds a (wrong) value for every
-/// date, the bank the right ones: each look-up must answer with the bank's rate - the first year looked up and every later one.
-fn check_forced(c: &ForcedCase, obs: &mut O) -> Verdict {
-    crate::observe::reset_globals(crate::observe::far_today());
-    let o = crate::observe::RunOpts { usd_years: Some((c.y0 - 1, c.y0 + c.years - 1)), forced_over_wrong_cache: true, ..Default::default() };
-    let mut loader = crate::observe::loader_for(&o);
-    let mut years = std::collections::BTreeSet::new();
-    for d in &c.lookups {
-        let want = crate::observe::synthetic_effective_rate(*d);
-        match crate::engine::guard(|| loader.blocking_get_effective_usd_cad_rate(*d)) {
-            Err(p) => return Verdict::Fail(format!("panic looking up {d}: {}", p.sig())),
-            Ok(Err(e)) => return Verdict::Fail(format!("forced run: look-up of {d} fails ({e}) although the bank has a rate for it")),
-            Ok(Ok(r)) => { if r.foreign_to_local_rate != want { return Verdict::Fail(format!("forced run over a cache that disagrees with the bank: look-up of {d} (look-ups so far: {:?}) answers {} from {}, the bank's rate is {want} - the cache was used although the download was forced", c.lookups, r.foreign_to_local_rate, r.date)); } }
-        }
-        years.insert(d.year());
-    }
-    if years.len() >= 2 { obs.nt("forced-run-over-several-years"); }
-    Verdict::Pass
-}
-
 pub fn def() -> PropDef {
-    let mut d = PropDef::new("C13", "(sub forced) a forced run of 2-9 look-ups over 2-3 years on a cache holding a wrong value for every date must answer every look-up with the bank's rate; (sub history) model-based histories: one generated publication calendar; 1-5 runs with non-decreasing 'today' (steps 0 days ... 14 months), force flag, remote data = everything published before that run's today (sometimes including today), and 1-8 look-ups per run in any order (just before today, older, today/future, gap edges, start of this/previous year, random); the cache object (in-memory, then a real CSV cache directory, then a cache whose writes fail) is carried from run to run. After every look-up the answer must equal that of a fresh loader with an empty cache over the same remote data and 'today' (same date and rate, or both errors); a year is downloaded at most once per run, and not at all for a date the persisted cache already covers (unless forced). Non-trivial = a run that first looks up a date served from the cache and later a past date of the same year that the cache does not cover, or a forced run after an unforced one. Distinct = distinct case content.");
+    let mut d = PropDef::new("C13", "model-based histories: one generated publication calendar; 1-5 runs with non-decreasing 'today' (steps 0 days ... 14 months), force flag, remote data = everything published before that run's today (sometimes including today), and 1-8 look-ups per run in any order (just before today, older, today/future, gap edges, start of this/previous year, random); the cache object (in-memory, then a real CSV cache directory, then a cache whose writes fail) is carried from run to run. After every look-up the answer must equal that of a fresh loader with an empty cache over the same remote data and 'today' (same date and rate, or both errors); a year is downloaded at most once per run, and not at all for a date the persisted cache already covers (unless forced). Non-trivial = a run that first looks up a date served from the cache and later a past date of the same year that the cache does not cover, or a forced run after an unforced one. Distinct = distinct case content.");
     d.assumptions = vec!["the remote always contains every rate published before the run's today (the property's premise)", "no remote errors are injected"];
-    d.subs.push(Box::new(Sub::<ForcedCase> { name: "forced", cases_quick: 4_000, cases_thorough: 100_000, strategy: Box::new(forced_strategy),
-        to_json: |c| json::object! { y0: c.y0, years: c.years, lookups: c.lookups.iter().map(|d| d.to_string()).collect::<Vec<_>>() },
-        from_json: |v| Some(ForcedCase { y0: v["y0"].as_i32()?, years: v["years"].as_i32()?, lookups: v["lookups"].members().filter_map(|x| x.as_str().and_then(crate::gen::parse_date)).collect() }), check: check_forced }));
     d.subs.push(Box::new(Sub::<CacheCase> { name: "history", cases_quick: 12_000, cases_thorough: 200_000, strategy: Box::new(strategy), to_json: CacheCase::to_json, from_json: CacheCase::from_json, check }));
     d
 }
